@@ -98,7 +98,7 @@ func panicClass(msg string) string {
 }
 
 func run(c *Ctx) {
-	c.Rule = "exhaustive: every sequence of <= L tokens of a 46-token alphabet joined by spaces and (for L<=2) without, both lexer modes; " +
+	c.Rule = "every byte value 0..255 in 15 lexical contexts (inside a line comment followed by tokens, block comment, string, raw string, between and inside tokens), both lexer modes; exhaustive: every sequence of <= L tokens of a 46-token alphabet joined by spaces and (for L<=2) without, both lexer modes; " +
 		"random token soup to length 12; every truncation and random byte mutations of the shipped examples; NUL / non-UTF-8 bytes. " +
 		"non-trivial = distinct clean trees (no errors, no continuation) by canonical dump"
 	if c.ReplayCase != "" {
@@ -175,11 +175,27 @@ func run(c *Ctx) {
 		}
 		one(c, []byte(strings.Join(parts, sep)), c.R.Bool(), true, &st)
 	}
+	// every byte value in every lexical context (comment, string, raw string, block comment, between tokens, inside a number
+	// and an identifier), followed by more tokens on the same line and on the next one
+	for _, tpl := range []string{"// c%sx", "a // c%sb c", "/* c%s */ x", "\"s%s\" + a", "`r%s` b", "a%sb", "1%s2", "// c%s\nx", "x = 1 // t%s y\nz",
+		"if a {%sb}", "f(%sa)", "a +%sb", "%s// c\nx", "a%s// c", "\"s\"%s\"t\""} {
+		for b := 0; b < 256; b++ {
+			src := []byte(strings.Replace(tpl, "%s", string([]byte{byte(b)}), 1))
+			one(c, src, false, true, &st)
+			one(c, src, true, true, &st)
+			if b == '\r' || b == '\n' || b == 0 || b >= 0x80 {
+				src2 := []byte(strings.Replace(tpl, "%s", string([]byte{byte(b), byte(b)}), 1))
+				one(c, src2, c.R.Bool(), true, &st)
+				src3 := []byte(strings.Replace(tpl, "%s", string([]byte{'\r', byte(b)}), 1))
+				one(c, src3, c.R.Bool(), true, &st)
+			}
+		}
+	}
 	// truncations and mutations of the shipped examples
 	files, _ := filepath.Glob("/repo/examples/*.gr")
 	more, _ := filepath.Glob("/repo/tests/*.gr")
 	files = append(files, more...)
-	junk := []byte{0, 0xff, 0xc3, '"', '`', '(', ')', '{', '}', '[', ']', '\n', '/', '*', '.', '=', '>', ','}
+	junk := []byte{0, 0xff, 0xc3, '"', '`', '(', ')', '{', '}', '[', ']', '\n', '\r', '\t', '/', '*', '.', '=', '>', ',', ' '}
 	for _, f := range files {
 		b, err := os.ReadFile(f)
 		if err != nil {
